@@ -564,6 +564,11 @@ Fixpoint popped (a b : list aq) : option (list aq) :=
 Definition signalled (sigs : list (bool * cvid)) (bc : bool) (cv : cvid) : bool :=
   existsb (fun s => Bool.eqb (fst s) bc && cvid_eqb (snd s) cv) sigs.
 
+(* a waiter on cv is woken by a signal OR a broadcast on it: the obligation is a lower bound, extra or more
+   generous wake-ups are harmless (every wait is a predicate loop) *)
+Definition woken (sigs : list (bool * cvid)) (cv : cvid) : bool :=
+  signalled sigs false cv || signalled sigs true cv.
+
 (* the queue after thread t pushed itself *)
 Definition is_push (a b : list aq) (t : N) : bool :=
   match rev b with
@@ -586,8 +591,8 @@ Definition valid_transition (t : N) (sigs : list (bool * cvid)) (h : how) (cv : 
   else if negb (N.eqb (a_ls a) (a_ls b)) && negb (match pop with Some (_ :: _) => aq_head_is qa t | _ => false end) then 3
   (* waker obligation of a pop: every popped follower and the new head are signalled *)
   else if match pop with
-          | Some p => negb (forallb (fun e => N.eqb (aq_tid e) t || signalled sigs false (CvW (aq_tid e))) p &&
-                            match qb with [] => true | e :: _ => signalled sigs false (CvW (aq_tid e)) end)
+          | Some p => negb (forallb (fun e => N.eqb (aq_tid e) t || woken sigs (CvW (aq_tid e))) p &&
+                            match qb with [] => true | e :: _ => woken sigs (CvW (aq_tid e)) end)
           | None => false end then 4
   (* memtable switch: only by the queue head (possibly just pushed, possibly popped again: flush request); new log number;
      and a background call is scheduled (or impossible: error / shutdown) *)
